@@ -362,6 +362,9 @@ def run(prop, tier):
                        % (worlds, ", every truncation length, appended garbage, non-jubako files of 0..70+ bytes; debug and release builds" if prop == "C06" else ""))
     rep.assumptions += ["damage positions are classified with the independent decoder's block map of the pristine file",
                         "a crash or timeout is attributed to a case only after re-running it alone in a fresh process"]
+    if prop == "C04":
+        import p_lifecycle
+        p_lifecycle.stage(rep, prop, tier, binaries["debug"])      # CheckIsSound, end to end
     shutil.rmtree(base, ignore_errors=True)
     return rep.finish()
 
